@@ -116,7 +116,10 @@ def _cstrs(strings):
     return arr
 
 
-class Bridge(object):
+from vlib.bridge_ext import IoMixin  # noqa: E402
+
+
+class Bridge(IoMixin):
     def __init__(self, builddir):
         self.builddir = builddir
         self.L = ctypes.CDLL(os.path.join(builddir, "libakbridge.so"), mode=ctypes.RTLD_GLOBAL)
